@@ -262,6 +262,8 @@ type handFileOpts struct {
 	V0          bool
 	LeafType    pb.Data_DataType
 	InteriorRaw bool // interior nodes carry UnixFS type Raw instead of File (legal: read as files)
+	HighMode    bool // interior nodes carry a mode with bit 31 set (a legal 32-bit value)
+	PBTsize     int  // Tsize on links to dag-pb children: 0 cumulative, 1 zero, 2 absent, 3 one (Tsize is advisory there)
 }
 
 // handFile builds a balanced file DAG over chunks by hand.
@@ -306,6 +308,9 @@ func handFile(st *store.Store, chunks [][]byte, o handFileOpts) (cid.Cid, uint64
 				t = pb.Data_Raw
 			}
 			m := &pb.Data{Type: &t}
+			if o.HighMode {
+				m.Mode = proto.Uint32(0x80000000 | 0o644)
+			}
 			var links []pbLinkSpec
 			var total, ts uint64
 			for _, ch := range level[i:j] {
@@ -314,7 +319,18 @@ func handFile(st *store.Store, chunks [][]byte, o handFileOpts) (cid.Cid, uint64
 				}
 				total += ch.bytes
 				ts += ch.tsize
-				links = append(links, pbLinkSpec{Name: strp(""), Tsize: u64p(ch.tsize), Cid: ch.c})
+				lts := u64p(ch.tsize)
+				if ch.c.Prefix().Codec == cid.DagProtobuf {
+					switch o.PBTsize {
+					case 1:
+						lts = u64p(0)
+					case 2:
+						lts = nil
+					case 3:
+						lts = u64p(1)
+					}
+				}
+				links = append(links, pbLinkSpec{Name: strp(""), Tsize: lts, Cid: ch.c})
 			}
 			if !o.NoFileSize {
 				m.Filesize = proto.Uint64(total)
@@ -379,6 +395,12 @@ func handName(o handFileOpts) string {
 	}
 	if o.InteriorRaw {
 		s += "-rawinterior"
+	}
+	if o.HighMode {
+		s += "-highmode"
+	}
+	if o.PBTsize != 0 {
+		s += []string{"", "-tsize0", "-tsizeabsent", "-tsize1"}[o.PBTsize]
 	}
 	return s
 }
